@@ -91,6 +91,14 @@ def check(case):
     classes = list(m.classes_)
     require(len(classes) == 2 and set(classes) == set(y.tolist()), "classes_", "%r" % (classes,), facts)
     nn = int(m.n_nodes_)
+    if case.get("warmup", True) and len(Q) >= 2:
+        # the batch object was already used for another content (reversed rows), then edited in place: the clauses below are stated for
+        # what the array holds NOW, whatever the same object held at an earlier call
+        Qfinal = Q.copy()
+        Q[:] = Qfinal[::-1]
+        m.predict(Q)
+        m.predict_proba(Q)
+        Q[:] = Qfinal
     P = np.asarray(m.predict_proba(Q))
     mq = len(Q)
     require(P.shape == (mq, 2), "proba:shape", "%r" % (P.shape,), facts)
